@@ -83,4 +83,8 @@ var Map zconst.LangMap = map[zconst.ZogType]map[zconst.ZogIssueCode]string{
 		zconst.IssueCodeZHTTPInvalidForm:  "invalid form data",
 		zconst.IssueCodeZHTTPInvalidQuery: "invalid query params",
 	},
+	// schemas built with z.CustomFunc (their type is "custom")
+	"custom": {
+		zconst.IssueCodeFallback: "value is invalid",
+	},
 }
